@@ -32,6 +32,9 @@ deffold("allconst", "all", T.Bool, lambda eng, k, v: z3.Length(k) == 0)
 deffold("nozero", "all", T.Bool, lambda eng, k, v: v != 0)
 deffold("bcanon", "all", T.Bool, lambda eng, k, v: eng.facts.sq(False, k) == k)
 deffold("scanon", "all", T.Bool, lambda eng, k, v: eng.facts.sq(True, k) == k)
+deffold("valid_qubo", "all", T.Bool, lambda eng, k, v: z3.Length(eng.facts.sq(False, k)) <= 2)
+deffold("valid_quso", "all", T.Bool, lambda eng, k, v: z3.Length(eng.facts.sq(True, k)) <= 2)
+deffold("valid_mat", "all", T.Bool, lambda eng, k, v: T.matvalid(eng.facts.key(k)))
 deffold("deg2", "all", T.Bool, lambda eng, k, v: z3.Length(k) <= 2)
 # sum of |v| over non-constant keys / sum of negative / positive coefficients (extrema closed forms)
 deffold("absnc", "sum", T.Real, lambda eng, k, v: z3.If(z3.Length(k) == 0, z3.RealVal(0), z3.If(_real(v) < 0, -_real(v), _real(v))))
